@@ -1421,6 +1421,15 @@ class ForAll(BinaryOperator):
         return [v.id_ for v in self.condition._unique_variables_.difference(self.left._unique_variables_)
                 if not isinstance(v.value, Literal) and not v.value._predicate_type_]
 
+    @lru_cache(maxsize=None)
+    def _required_variables_from_child_(self, child: Optional[SymbolicExpression] = None, when_true: bool = True):
+        required_vars = super()._required_variables_from_child_(child, when_true)
+        if child is self.condition:
+            # The bindings of all variables of the condition are intersected over the universal values, also of the
+            # variables that no ancestor needs, so bindings that differ only in those are not duplicates.
+            required_vars = required_vars.union(self.condition._unique_variables_)
+        return required_vars
+
     @staticmethod
     def _unify_(first: Dict[int, HashedValue], second: Dict[int, HashedValue]) -> Optional[Dict[int, HashedValue]]:
         """
